@@ -255,11 +255,16 @@ class one_dimensional_chain(lattice):
         return hash((self.n_sites, self.shape, self.sites, self.bonds))
 
     def tree_flatten(self):
-        return (), (self.n_sites, self.shape, self.sites, self.bonds, self.coord_num)
+        # constructor inputs by name; shape, sites and bonds are rebuilt by __post_init__
+        return (), (
+            ("n_sites", self.n_sites),
+            ("hop_signs", self.hop_signs),
+            ("coord_num", self.coord_num),
+        )
 
     @classmethod
     def tree_unflatten(cls, aux_data, children):
-        return cls(*aux_data)
+        return cls(**dict(aux_data))
 
 
 @dataclass
@@ -516,20 +521,17 @@ class two_dimensional_grid(lattice):
         )
 
     def tree_flatten(self):
+        # constructor inputs by name; the derived fields are rebuilt by __post_init__
         return (), (
-            self.l_x,
-            self.l_y,
-            self.shape,
-            self.shell_distances,
-            self.bond_shell_distances,
-            self.sites,
-            self.bonds,
-            self.coord_num,
+            ("l_x", self.l_x),
+            ("l_y", self.l_y),
+            ("hop_signs", self.hop_signs),
+            ("coord_num", self.coord_num),
         )
 
     @classmethod
     def tree_unflatten(cls, aux_data, children):
-        return cls(*aux_data)
+        return cls(**dict(aux_data))
 
 
 @dataclass
@@ -602,17 +604,17 @@ class triangular_grid(lattice):
         )
 
     def tree_flatten(self):
+        # constructor inputs by name; shape, sites and n_sites are rebuilt by __post_init__
         return (), (
-            self.l_x,
-            self.l_y,
-            self.shape,
-            self.sites,
-            self.coord_num,
+            ("l_x", self.l_x),
+            ("l_y", self.l_y),
+            ("coord_num", self.coord_num),
+            ("open_x", self.open_x),
         )
 
     @classmethod
     def tree_unflatten(cls, aux_data, children):
-        return cls(*aux_data)
+        return cls(**dict(aux_data))
 
 
 @dataclass
